@@ -7,7 +7,7 @@ local instance : NatCast Float := ⟨Float.ofNat⟩
 
 def errName : Err → String
   | .shape => "shape" | .noValidData => "noValidData" | .nanMember => "nanMember" | .edom => "edom"
-  | .obsNot1D => "obsNot1D" | .ensNot2D => "ensNot2D"
+  | .obsNot1D => "obsNot1D" | .ensNot2D => "ensNot2D" | .assertion => "assertion" | .weightsLen => "weightsLen"
 
 /-- stable merge sort (glibc's `qsort` is one too; the kernel only needs sorted + permutation) -/
 def sortF (l : List Float) : List Float := l.mergeSort fun a b => decide (a ≤ b)
@@ -26,8 +26,46 @@ def fmtResult {β : Type} (f : β → String) (fo : Option β → String) (r : R
   let rows := r.table.map fun t => [f t.p, f t.a, f t.b, f t.g, fo t.o, fo t.r, fo t.c]
   s!"ok {f r.crps} {fo r.reli} {fo r.resol} {f r.unc} {fo r.pot} " ++ fmtList rows.flatten
 
+/-- split a token list at the `|` tokens -/
+def splitBar : List String → List (List String)
+  | [] => [[]]
+  | "|" :: t => [] :: splitBar t
+  | x :: t => match splitBar t with
+    | [] => [[x]]
+    | g :: gs => (x :: g) :: gs
+
+/-- one operation of a `pyxrun` history: `fill v` | `call useW isSorted n cols obs sim weights` -/
+def parseOp? : List String → Option (Op Float)
+  | ["fill", v] => (floatTok? v).map Op.fill
+  | ["call", uw, is, n, cols, obs, sim, w] =>
+    match uw.toInt?, is.toInt?, n.toNat?, cols.toNat?, parseFloatList? obs, parseFloatList? sim, parseFloatList? w with
+    | some uw, some is, some n, some cols, some obs, some sim, some w =>
+      if sim.length ≠ n * cols then none else some (Op.call uw is obs cols (reshape cols n sim) w)
+    | _, _, _, _, _, _, _ => none
+  | _ => none
+
+/-- the history run through `runOps` (final content and outcomes), and the content after every prefix -/
+def runHistory (m : Nat) (ops : List (Op Float)) : String :=
+  let (fin, errs) := runOps sortF m (filled m 0) ops
+  let states := (List.range ops.length).map fun k => (runOps sortF m (filled m 0) (ops.take (k + 1))).1
+  let parts := (errs.zip states).map fun (e, st) =>
+    match e with
+    | some e => "err " ++ errName e ++ " " ++ fmtResult hexOfFloat fmtOptFloat st
+    | none => fmtResult hexOfFloat fmtOptFloat st
+  " | ".intercalate parts ++ " | final " ++ fmtResult hexOfFloat fmtOptFloat fin
+
 def handle (toks : List String) : String :=
   match toks with
+  | "pyxrun" :: m :: "|" :: rest =>
+    match m.toNat?, allSome ((splitBar rest).map parseOp?) with
+    | some m, some ops => runHistory m ops
+    | _, _ => "bad-op"
+  | ["crpsdef", n, m, obs, ens] =>
+    match n.toNat?, m.toNat?, allSome ((listToks obs).map ratOptTok?), parseRatList? ens with
+    | some n, some m, some obs, some ens =>
+      if ens.length ≠ n * m ∨ obs.length ≠ n then "bad-op" else
+      "ok " ++ fmtRat (definitionCrps obs (reshape m n ens))
+    | _, _, _, _ => "bad-op"
   | ["crpsf", n, m, obs, ens] =>
     match n.toNat?, m.toNat?, parseFloatList? obs, parseFloatList? ens with
     | some n, some m, some obs, some ens =>
